@@ -12,6 +12,7 @@ func Gen(t *rapid.T) *Case {
 	if rapid.Bool().Draw(t, "hasAmbient") {
 		c.Ambient = rapid.IntRange(0, busmodel.AmbAll).Draw(t, "ambient")
 	}
+	c.ShortTO = c.Store && rapid.IntRange(0, 3).Draw(t, "shortTO") == 0
 	nh := rapid.IntRange(0, 6).Draw(t, "nh")
 	for i := 0; i < nh; i++ {
 		c.Handlers = append(c.Handlers, H{
@@ -34,8 +35,10 @@ func Gen(t *rapid.T) *Case {
 	}
 	np := rapid.IntRange(1, 8).Draw(t, "np")
 	for i := 0; i < np; i++ {
-		p := Pub{Persist: rapid.SampledFrom([]string{"ok", "ok", "ok", "reject", "bad"}).Draw(t, "persist")}
-		switch rapid.IntRange(0, 4).Draw(t, "ctxmode") {
+		p := Pub{Persist: rapid.SampledFrom([]string{"ok", "ok", "ok", "reject", "bad", "slow"}).Draw(t, "persist")}
+		switch rapid.IntRange(0, 5).Draw(t, "ctxmode") {
+		case 5:
+			p.Expired = true
 		case 0:
 			p.Cancelled = true
 		case 1, 2:
